@@ -314,7 +314,7 @@ theorem Sim.undoN : ∀ (k : Nat) {s t : SDB}, Sim s t → s.journal = t.journal
 /-! ### extension by journalled steps -/
 
 /-- the address holds a deleted cached object (a tombstone left by Finalise/Commit). -/
-def Tomb (s : SDB) (a : Addr) : Prop := ∃ o, s.objs a = some o ∧ o.deleted = true
+def Tomb (s : SDB) (a : Addr) (q : Obj) : Prop := s.objs a = some q ∧ q.deleted = true
 
 /-- journal entries never hold a deleted object as the "previous" one. -/
 def EntryOK : Entry → Prop
@@ -328,16 +328,16 @@ structure Ext (t t' : SDB) : Prop where
   revs : t'.revs = t.revs
   nextId : t'.nextId = t.nextId
   trie : t'.trie = t.trie
-  tomb : ∀ b, Tomb t' b → Tomb t b
+  tomb : ∀ b q, Tomb t' b q → Tomb t b q
 
 theorem Ext.rfl' (t : SDB) : Ext t t :=
-  ⟨⟨[], by simp, by simpa [undoN_zero] using Sim.rfl' t, by simp⟩, rfl, rfl, rfl, fun _ h => h⟩
+  ⟨⟨[], by simp, by simpa [undoN_zero] using Sim.rfl' t, by simp⟩, rfl, rfl, rfl, fun _ _ h => h⟩
 
 theorem Ext.trans {t t' t'' : SDB} (h : Ext t t') (g : Ext t' t'') : Ext t t'' := by
   obtain ⟨es1, hj1, hs1, ho1⟩ := h.ex
   obtain ⟨es2, hj2, hs2, ho2⟩ := g.ex
   refine ⟨⟨es2 ++ es1, by simp [hj2, hj1], ?_, ?_⟩, g.revs.trans h.revs, g.nextId.trans h.nextId, g.trie.trans h.trie,
-    fun b hb => h.tomb b (g.tomb b hb)⟩
+    fun b q hb => h.tomb b q (g.tomb b q hb)⟩
   · rw [List.length_append, undoN_add]
     have hj : (undoN es2.length t'').journal = t'.journal := by simp [undoN_journal, hj2]
     exact (Sim.undoN es1.length hs2 hj).trans hs1
@@ -346,18 +346,18 @@ theorem Ext.trans {t t' t'' : SDB} (h : Ext t t') (g : Ext t' t'') : Ext t t'' :
     · exact ho2 e h'
     · exact ho1 e h'
 
-theorem tomb_putObj {s : SDB} {a b : Addr} {o : Obj} (ho : o.deleted = false) (h : Tomb (putObj s a o) b) : Tomb s b := by
-  obtain ⟨q, hq, hqd⟩ := h
+theorem tomb_putObj {s : SDB} {a b : Addr} {o q : Obj} (ho : o.deleted = false) (h : Tomb (putObj s a o) b q) : Tomb s b q := by
+  obtain ⟨hq, hqd⟩ := h
   simp only [putObj, upd] at hq
   by_cases hb : b = a
   · simp [hb] at hq; subst hq; simp [ho] at hqd
-  · simp [hb] at hq; exact ⟨q, hq, hqd⟩
+  · simp [hb] at hq; exact ⟨hq, hqd⟩
 
-theorem tomb_writeObj {s : SDB} {a b : Addr} {o : Obj} (ho : o.deleted = false) (h : Tomb (writeObj s a o) b) : Tomb s b := by
+theorem tomb_writeObj {s : SDB} {a b : Addr} {o q : Obj} (ho : o.deleted = false) (h : Tomb (writeObj s a o) b q) : Tomb s b q := by
   unfold writeObj at h
   have := tomb_putObj (o := { o with armed := false }) ho h
   split at this
-  · obtain ⟨q, hq, hqd⟩ := this; exact ⟨q, by simpa using hq, hqd⟩
+  · obtain ⟨hq, hqd⟩ := this; exact ⟨by simpa using hq, hqd⟩
   · exact this
 
 theorem look_setJournal (s : SDB) (j : List Entry) (a : Addr) : look { s with journal := j } a = look s a := rfl
@@ -370,7 +370,7 @@ theorem ext_write (u : SDB) (a : Addr) (o o' : Obj) (e : Entry) (r : Obj → Obj
     (hok : EntryOK e) :
     Ext u (writeObj (push u e) a o') := by
   refine ⟨⟨[e], by simp [push], ?_, by simpa using hok⟩, by simp [push], by simp [push], by simp [push],
-    fun b hb => by simpa [Tomb, push] using tomb_writeObj hd hb⟩
+    fun b q hb => by simpa [Tomb, push] using tomb_writeObj hd hb⟩
   have hj : (writeObj (push u e) a o').journal = e :: u.journal := by simp [push]
   rw [List.length_singleton, undoN_succ_cons 0 _ e u.journal hj, undoN_zero]
   have hlw : look { writeObj (push u e) a o' with journal := u.journal } a = some { o' with armed := false } := by
